@@ -18,6 +18,7 @@
 From Coq Require Import ZArith QArith List Bool.
 From DV Require Import Model.PyPrims Model.Tree Model.C14Model Model.C14Spec Model.C14Spec2 Model.C14Spec3 Model.C14GenPrims Model.C14GenObj Model.C14GenMrcaPrims Gen.Pdm.
 From DV Require Import Proofs.C14GenTop Proofs.C14NjGen Proofs.C14NjUniqGen.
+From DV Require Import Model.C14Hist Model.C14ObjPrims Model.C14ObjModel Gen.PdmObj Proofs.C14ObjProofs Proofs.C14GenObjTie.
 Import ListNotations.
 Open Scope Z_scope.
 
@@ -376,3 +377,20 @@ Theorem gen_tree_builders_example :
   = Ok (QT 4 None None [QT 2 (Some 12) (Some (2 # 1)%Q) []; QT 3 None (Some (1 # 1)%Q) [QT 0 (Some 10) (Some (1 # 1)%Q) []; QT 1 (Some 11) (Some (1 # 1)%Q) []]]).
 Proof. exact gen_tree_builders_example_top. Qed.
 Print Assumptions gen_tree_builders_example.
+
+(* ------------------------------------------------------------------------------------------------ *)
+(* OBJECT LEVEL (Gen/PdmObj.v, generated by py/dv/gen_pdm_obj.py from clear / __init__ / clone / __copy__
+   of the current source: which attribute is rebound to a fresh container and which is emptied in place;
+   which attribute of the clone gets a new container and which the original's own).  The generated
+   statement sequences equal the one-step object model about which Props/C14.v proves independence. *)
+Theorem gen_obj_clear_eq_model :
+  forall (self : oid) (w : world), gen_PDM_clear self w = o_clear self w /\ gen_PDM_init self w = o_init self w.
+Proof. exact gen_obj_clear_eq_top. Qed.
+Print Assumptions gen_obj_clear_eq_model.
+
+Theorem gen_obj_clone_eq_model :
+  forall (ops : list mop) (w : world) (self : oid) (so : obj),
+  run_mops ops world_empty = Ok w -> dget self (w_objs w) = Some so ->
+  gen_PDM_clone self w = o_clone self w /\ gen_PDM_copy self w = o_clone self w.
+Proof. exact gen_obj_clone_eq_top. Qed.
+Print Assumptions gen_obj_clone_eq_model.
